@@ -5,7 +5,7 @@
    displacement kind, binds, data, gaps, section switches, embedded labels, label deltas, layout+cross-section resolution). *)
 From Coq Require Import ZArith List Bool.
 From Verif Require Import Codec.OffsetModel Labels.LabelsModel Labels.LabelsProofs Labels.LabelsExact Labels.LabelsAbs
-  Labels.FlatModel Labels.FlatLemmas Labels.FlatProofs.
+  Labels.FlatModel Labels.FlatLemmas Labels.FlatProofs Labels.SparseModel Labels.SparseProofs.
 Import ListNotations.
 Local Open Scope Z_scope.
 
@@ -278,3 +278,17 @@ Theorem C03_image_outside_untouched : forall ops o k p,
   nth (Z.to_nat p) (nth k (f_secs f') []) 0 = nth (Z.to_nat p) (nth k (f_secs f) []) 0.
 Proof. exact patch_outside_untouched. Qed.
 Print Assumptions C03_image_outside_untouched.
+
+(* round 3: the flat model with SPARSE buffers (Labels.SparseModel: chunks of explicit bytes / runs of zeros; what the check's driver runs on
+   EVERY program, also those with 128 MiB gaps) is the flat model: expanding the chunks gives FlatModel's buffers after any operations,
+   all other components and every error code are equal *)
+Theorem C03_sparse_refines : forall ops,
+  f_secs (frun finit ops) = map expand (s_bufs (srun sinit ops)) /\
+  f_labels (frun finit ops) = s_labels (srun sinit ops) /\ f_unresolved (frun finit ops) = s_unresolved (srun sinit ops) /\
+  f_relocs (frun finit ops) = s_relocs (srun sinit ops) /\ f_pending (frun finit ops) = s_pending (srun sinit ops).
+Proof. exact sparse_refines. Qed.
+Print Assumptions C03_sparse_refines.
+
+Theorem C03_sparse_errors_agree : forall ops o, snd (fstep (frun finit ops) o) = snd (sstep (srun sinit ops) o).
+Proof. exact sparse_errors_agree. Qed.
+Print Assumptions C03_sparse_errors_agree.
